@@ -8,7 +8,10 @@ draft-ietf-core-oscore-groupcomm: keys, Common IV, pairwise keys, external_aad, 
 
 Two families of matching contexts: plain two-party contexts (scenario / ["scn", i]) and the members of an
 OSCORE group (g_scenario / ["grp", i]: SimpleGroupContext, its group mode and pairwise mode aspects and the
-deterministic-request aspects)."""
+deterministic-request aspects).
+
+Every scenario additionally protects a forward-proxy request in URI form (Proxy-Uri; gen_proxy_uri) and runs a
+sequence of deliveries against receivers that keep their replay state (redelivery / g_redelivery)."""
 
 import random
 
@@ -27,7 +30,16 @@ TECHNIQUE = (
     "A128CBC): group mode and pairwise mode requests and responses in all four combinations plus deterministic requests, "
     "received through the library's own context selection (verify_start + get_oscore_context_for, context_from_response, "
     "context_for_response) and additionally by the aspect that took the genuine message; an independent Group OSCORE "
-    "re-implementation verifies countersignature, keystream, AAD, nonce and (pairwise) key derivation of every genuine message"
+    "re-implementation verifies countersignature, keystream, AAD, nonce and (pairwise) key derivation of every genuine message. "
+    "Requests that name their target by a Proxy-Uri option (composed from scheme, host, port, path segments and query items, so that the "
+    "decomposition RFC 8613 section 4.1.3.3 demands is known by construction) or by Proxy-Scheme with Uri-Host / Uri-Port go through the same "
+    "round-trip, hiding and reference-decryption monitors, one extra such request per scenario and some as the scenario's main request. "
+    "The option parser of the reference accepts nothing but the encoding RFC 8613 sections 5 and 6.1 prescribe (no zero flag byte in a non-empty value, "
+    "no leading zero bytes in the Partial IV, no bytes after the last announced field); re-encodings of every genuine option that break one of these "
+    "rules are part of the field-level edits. Deliveries to receivers that keep their state (no re-initialised replay window): every request and "
+    "response a second time, a request older than the window, fresh requests whose Partial IV is overwritten with a used one, a receiver without "
+    "replay window, on three kinds of two-party context (the bases only, like edhoc._EdhocContextBase and the test suite's; declaring echo_recovery = None, "
+    "like the deterministic aspect; holding an Echo value, like FilesystemSecurityContext) and on group, pairwise and deterministic aspects through both ways of context selection"
 )
 LEVEL_TEXT = (
     "Held (apart from the mechanism-keyed findings) on every generated case: every AEAD algorithm of oscore.algorithms (12; A128CBC is "
@@ -39,8 +51,14 @@ LEVEL_TEXT = (
     "boundary sequence numbers), 2.5e5 / 7.5e6 unprotect attempts on genuine, third-member, manipulated (every bit of the OSCORE option, "
     "selected bits of ciphertext, tag and countersignature, field edits incl. the group flag and other members' IDs), cross-paired and "
     "foreign (other master secret / group / credential / key pair / algorithms / non-group context with the same IDs) messages. "
-    "Says nothing about EDHOC, Appendix B.2, Proxy-Uri (protect() refuses it), group rekeying, replay windows (C12) or messages outside "
-    "the generators' classes."
+    "Forward-proxy requests: 1.7e3 / 5.1e4 (two-party) and 2.0e2 / 6.1e3 (group members) requests with a Proxy-Uri of 6 CoAP schemes (and http/https, which "
+    "protect() refuses by a ValueError of its own), registered names, IPv4 and IPv6 literals, with and without port, 0-4 path segments, 0-2 query items, "
+    "percent-encoded delimiters and non-ASCII in them. Non-canonical re-encodings of the OSCORE option: 3.4e4 / 1.0e6 attempts. Stateful deliveries: 1.3e4 / 4.0e5 "
+    "(two-party, three kinds of context) and 2.0e3 / 6.1e4 (group members) second / late / Partial-IV-overwritten deliveries, judged only for the class of the "
+    "outcome (the original message or a protection error; a changed Partial IV: a protection error) - whether a replay is refused is C12's question. "
+    "Says nothing about EDHOC key establishment (the context class it produces is modelled, lakers is not installed), Appendix B.2, whether scheme / host / port of a "
+    "proxy request survive in the outer message (counted in proxy_uri_outer_routing/*, class_u_option_not_carried_outer/*: the statement only limits what the outer "
+    "message may carry), group rekeying, replay window arithmetic (C12) or messages outside the generators' classes."
 )
 LEVEL_NOTE = (
     "Trusted: harness/refcodec.py, harness/oscore_c11ref.py (self-tested on RFC 8613 Appendix C vectors each run), the "
@@ -51,22 +69,30 @@ LEVEL_NOTE = (
     "group/ref/...). The ge25519/fe25519 stand-ins (Ed25519 -> X25519 public key conversion of the pairwise mode) are checked "
     "each run against OpenSSL's X25519 public key of the converted private key; cryptography 38 lacks `==` on EC public keys, "
     "which SimpleGroupContext.__init__ needs for ES256 groups: harness/oscore_env.group_env() adds the upstream semantics "
-    "(equal public numbers) to the backend class and records it in the evidence (group_environment)."
+    "(equal public numbers) to the backend class and records it in the evidence (group_environment). "
+    "Proxy-Uri requests: the harness composes the URI (RFC 7252 section 6.5, everything but 'unreserved' percent-encoded) and so knows the "
+    "decomposition without a URI parser of its own. Stateful deliveries: the in-memory contexts are the library's three base classes with the same "
+    "attributes the library's own context classes set; the replay window is the library's ReplayWindow, whose verdicts are not judged here (C12)."
 )
 RULE = (
     "a case is one unprotect() attempt (genuine, manipulated, cross-paired or under a foreign context) or one hiding / "
     "reference-decryption evaluation of a protected message; all are non-trivial (each carries a ciphertext). distinct = "
     "distinct (algorithm, sender/recipient ID lengths, ID-context class, Partial-IV length, message kind, code, inner option "
     "number set, payload size class, manipulation kind / touched field, outcome class) signatures; for group members additionally "
-    "(mode, countersignature algorithm, group encryption algorithm, group ID length, way of context selection)"
+    "(mode, countersignature algorithm, group encryption algorithm, group ID length, way of context selection); for stateful deliveries "
+    "(algorithm(s), kind of context / mode, ID lengths, Partial-IV length, step of the delivery sequence, demanded and observed outcome class)"
 )
 ASSUMPTIONS = [
     "harness/oscore_c11ref.py is a correct reading of RFC 8613 sections 3.2.1, 5.2, 5.3, 5.4 and 6.1 (Appendix C vectors C.1.1, C.3.1, C.4, C.7, C.8 pass each run)",
     "the outer option numbers the statement permits are OSCORE(9), Uri-Host(3), Uri-Port(7), Proxy-Uri(35), Proxy-Scheme(39), Observe(6); anything else in an outer message produced by protect() is flagged (RFC 8613 would also allow outer Max-Age/Block/Size/No-Response/Hop-Limit, but only when an intermediary or outer block-wise adds them, which protect() never does)",
-    "a manipulated OSCORE option whose RFC 8613 section 6.1 reading gives the same Partial IV bytes, an (explicit or implied) kid equal to the receiver's Recipient ID and an (explicit or implied) kid context equal to the receiver's ID Context is semantically neutral: it may be rejected or yield the original message; a request without kid is NOT neutral (RFC 8613 section 8.2 step 3 needs the kid to find the context)",
-    "a request's Partial IV is compared byte-exact (it is the request_piv of the AAD); a response's own Partial IV only enters the nonce left-padded to 5 bytes, so a leading zero byte added to it is neutral (RFC 8613 sections 5.2, 5.4: the option value itself is not authenticated)",
+    "a manipulated OSCORE option that is a canonical RFC 8613 section 6.1 encoding and whose reading gives the same Partial IV, an (explicit or implied) kid equal to the receiver's Recipient ID and an (explicit or implied) kid context equal to the receiver's ID Context is semantically neutral: it may be rejected or yield the original message; a request without kid is NOT neutral (RFC 8613 section 8.2 step 3 needs the kid to find the context)",
+    "an option value that is not the encoding RFC 8613 prescribes for its fields must make unprotection fail although plain OSCORE does not authenticate the option value: section 6.1 'If the OSCORE flag bits are all zero (0x00), the option value SHALL be empty', section 5 'All leading bytes of value zero SHALL be removed when encoding the Partial IV', and with k = 0 section 6.1 knows no field that bytes after the Partial IV / kid context could belong to; the statement's 'any change to the partial IV ... in the OSCORE option' covers a Partial IV field of other bytes with the same numeric value (until the 2026-09 extension such re-encodings of a response's option were counted as neutral)",
+    "a request's Partial IV is compared byte-exact (it is the request_piv of the AAD)",
+    "a Proxy-Uri request's end-to-end options are its other Class E options plus the Uri-Path and Uri-Query options of the RFC 7252 section 6.4 decomposition of the Proxy-Uri (RFC 8613 section 4.1.3.3); scheme, host and port are Class U and may appear outside as Proxy-Uri, Proxy-Scheme, Uri-Host, Uri-Port; a Proxy-Uri with a scheme that has no CoAP option form (http, https) may be refused by protect() with its ValueError('Can not split Proxy-URI into options')",
+    "a genuine message delivered again to a receiver that kept its replay window is either refused with a protection error (oscore.ProtectionInvalid, which ReplayError and ReplayErrorWithEcho are) or yields the original message - C11 does not decide which (C12 does) -, a fresh request whose Partial IV field was overwritten with a used value must fail with a protection error, and a genuine request with a fresh sequence number inside or ahead of the 32 wide window must still be unprotected after refused deliveries",
+    "the three kinds of two-party context differ only in the class attribute / instance attribute echo_recovery, mirroring edhoc._EdhocContextBase and tests/test_oscore.py's NonsavingSecurityContext (none), _DeterministicUnprotectProtoAspect (None) and FilesystemSecurityContext (8 bytes); a receiver without initialised replay window is only built for the latter two (an EDHOC-derived context always initialises its window)",
     "sender ID != recipient ID within a context pair (RFC 8613 section 3.3 requires unique sender IDs)",
-    "ReplayWindow is re-initialised empty before every unprotect attempt so that replay rejection never masks a verdict",
+    "ReplayWindow is re-initialised empty before every unprotect attempt of the manipulation / pairing / foreign-context parts so that replay rejection never masks a verdict; only the stateful deliveries leave it alone",
     "members of one OSCORE group hold matching contexts: in group mode every member (also a third one) must obtain the original message, in pairwise mode only the addressed member; a third member's pairwise context is a foreign context",
     "unprotection at a group member is judged on two paths: the library's own context selection as used by oscore_sitewrapper / transports.oscore (verify_start + get_oscore_context_for for requests, the requesting context's context_from_response for responses; 'no context' counts as rejection) and unprotect() of the aspect that unprotected the genuine message (what transports.oscore keeps using for the notifications of an observation)",
     "harness/oscore_c11ref.py g_* is a correct reading of draft-ietf-core-oscore-groupcomm (key derivation with the Group Encryption Algorithm, Common IV of the longer nonce length used from the left, Signature Encryption Key, pairwise keys of section 2.5.1, external_aad with request_kid_context / OSCORE_option / sender_cred / gm_cred, CounterSignature0 of RFC 9338, keystream of section 4.2) and of the Request-Hash construction of draft-amsuess-core-cachable-oscore; the Pairwise Key Agreement Algorithm value in the AAD may be -27 (ECDH-SS + HKDF-256) or, for P-256 groups, the -7 aiocoap's ECDSA class carries (FIXME in the source)",
@@ -83,6 +109,11 @@ REQUIRED_MONITORS = {
     "group_tamper_bitflip_option": 20000, "group_tamper_bitflip_payload": 20000, "group_tamper_field": 20000,
     "group_foreign_context": 2000, "group_binding": 3000, "group_binding_control": 1000,
     "group_mode_group": 100, "group_mode_pairwise": 100, "group_mode_deterministic": 20, "group_sigalg_EdDSA": 100, "group_sigalg_ES256": 100,
+    # forward-proxy requests in URI form (quick reaches about 1.7e3 / 2.0e2), non-canonical re-encodings of the option (1.0e4 / 2.4e4 / 6e3),
+    # stateful deliveries (1.3e4 / 8e3 / 2.0e3 / 9e2); thorough 30 times that
+    "proxy_uri_request": 800, "group_proxy_uri_request": 100,
+    "tamper_noncanonical_request": 4000, "tamper_noncanonical_response": 10000, "group_tamper_noncanonical": 2500,
+    "redelivery": 6000, "redelivery_control": 4000, "group_redelivery": 900, "group_redelivery_control": 400,
 }
 EXHAUSTIVE = {
     "single_bit_flip_option": "every bit of every OSCORE option value up to 40 bytes (requests, responses with own Partial IV); for longer ones (255-byte ID context) every bit of the first 8 bytes (flag, Partial IV, s) and last 9 bytes (kid) plus 24 random bits",
@@ -90,6 +121,8 @@ EXHAUSTIVE = {
     "truncation": "every proper prefix of every option value and of every ciphertext up to 48 bytes",
     "pairing": "all ordered pairs of distinct requests in a pool of 2 clients x 2 Partial IVs, both nonce modes",
     "alg_x_seq_x_idctx": "12 AEAD algorithms x 9 boundary sequence numbers x 4 ID-context classes enumerated over the global scenario index",
+    "noncanonical_option": "for every genuine option: the Partial IV zero-extended to every longer length up to 5 (and 6, 7), the flag byte replaced by 00 with the rest kept, and 1 / 1 / len(kid) / 8 bytes appended with k clear; for every empty option: 00, 00 + 1 byte, 00 + 2..8 bytes, 2..6 zero bytes",
+    "delivery_sequence_x_context_kind": "the 13-step delivery sequence (first / second / overwritten / fresh / beyond-window / older-than-window / responses twice / no window) on each of 3 kinds of two-party context x 12 AEAD algorithms, enumerated over the global scenario index",
     "group_single_bit_flip_option": "every bit of every OSCORE option value of every group member's message (at most 23 bytes), through both ways of context selection",
     "group_flow_x_sigalg": "5 exchanges (group/pairwise/deterministic request x group/pairwise response) x 2 countersignature algorithms enumerated over the global group scenario index",
     "group_pairing": "all ordered pairs of distinct requests in a pool of 2 members x 2 Partial IVs (3 requests for deterministic ones), responses in group and pairwise mode, both nonce modes",
@@ -113,6 +146,8 @@ RESP_OPTS = {4: OPAQUE, 8: STRING, 12: UINT, 14: UINT, 20: STRING, 23: BLOCK, 27
 REPEATABLE = {1, 4, 8, 11, 15, 20, 292}
 # (request mode, response mode) of the exchanges between two members of an OSCORE group
 # "deterministic": a request of the group's deterministic client (for_sending_deterministic_requests; experimental in aiocoap)
+# kinds of plain two-party context (Engine.ctx_classes)
+CTX_KINDS = ["declared-none", "edhoc-style", "echo-bytes"]
 GROUP_FLOWS = [("group", "group"), ("group", "pairwise"), ("pairwise", "pairwise"), ("pairwise", "group"), ("deterministic", "group")]
 REQUEST_HASH = 548
 
@@ -172,8 +207,60 @@ def gen_value(r, number, kind, markers):
     return m
 
 
-def gen_message(r, is_request, gi):
-    """-> dict(code, opts [(number, value, kind)], outer [(number, value)], payload, markers)"""
+PROXY_SCHEMES = ["coap", "coap", "coaps", "coap+tcp", "coaps+tcp", "coap+ws", "coaps+ws"]
+UNRESERVED = "abcdefghijklmnopqrstuvwxyzABCDEFGHIJKLMNOPQRSTUVWXYZ0123456789-._~"
+
+
+def pct(text):
+    """RFC 7252 section 6.5 steps 7 / 9 with the smallest admissible set of literal characters: everything but
+    RFC 3986 'unreserved' is percent-encoded (UTF-8), so that no decomposer can take a data character for a delimiter."""
+    return "".join(c if c in UNRESERVED else "".join("%%%02X" % b for b in c.encode("utf8")) for c in text)
+
+
+def gen_proxy_uri(r, markers):
+    """A forward-proxy request's absolute URI, composed from its parts as RFC 7252 section 6.5 prescribes (so the
+    section 6.4 decomposition the sender has to perform - RFC 8613 section 4.1.3.3 - is known by construction).
+    -> dict(uri, scheme, host (text as in the URI), host_kind, port (None = not in the URI), path [segments], query [items])"""
+    k = r.random()
+    scheme = r.choice(PROXY_SCHEMES) if k < 0.92 else r.choice(["http", "https"])
+    hk = r.random()
+    if hk < 0.7:
+        host, host_kind = "p" + marker(r, "").lower() + ".example", "name"
+    elif hk < 0.85:
+        host, host_kind = "[2001:db8::%x]" % r.randrange(1, 65536), "ip6"
+    else:
+        host, host_kind = "192.0.2.%d" % r.randrange(1, 255), "ip4"
+    port = r.choice([None, None, None, 5683, 5684, 1, 61616, 65535])
+    specials = [" ", "/", "?", "&", "=", "%", "\u00e4", "#", "+", ":"]
+
+    def text(tag):
+        m = marker(r, tag)  # 11 characters or more: long enough to be looked for in the outer bytes
+        markers.append(m.encode())
+        if r.random() < 0.3:
+            return m + r.choice(specials) + marker(r, "")[:3]
+        return m
+
+    style = r.random()
+    if style < 0.12:
+        path = []
+    else:
+        path = [text("X") for _ in range(r.choice([1, 1, 2, 3]))]
+        if r.random() < 0.1:
+            path.append("")  # a path that ends in a slash: a last, empty Uri-Path
+    query = [text("Y") for _ in range(r.choice([0, 0, 1, 2]))]
+    uri = scheme + "://" + host + ("" if port is None else ":%d" % port)
+    if path:
+        uri += "/" + "/".join(pct(x) for x in path)
+    elif r.random() < 0.5:
+        uri += "/"
+    if query:
+        uri += "?" + "&".join(pct(x) for x in query)
+    return {"uri": uri, "scheme": scheme, "host": host, "host_kind": host_kind, "port": port, "path": path, "query": query}
+
+
+def gen_message(r, is_request, gi, proxy=None):
+    """-> dict(code, opts [(number, value, kind)], outer [(number, value)], payload, markers, proxy)
+    proxy: True forces a request that names its target by a Proxy-Uri option (None: some requests do)."""
     markers = []
     table = REQ_OPTS if is_request else RESP_OPTS
     code = (REQ_CODES if is_request else RESP_CODES)[gi % len(REQ_CODES if is_request else RESP_CODES)] if r.random() < 0.5 else r.choice(REQ_CODES if is_request else RESP_CODES)
@@ -194,6 +281,7 @@ def gen_message(r, is_request, gi):
             opts.append((n, gen_value(r, n, kind, markers), kind))
     outer = []
     observe = None
+    proxy_uri = None
     if is_request:
         k = r.random()
         if k < 0.3:
@@ -201,10 +289,20 @@ def gen_message(r, is_request, gi):
         if k < 0.15:
             outer.append((7, r.choice([5683, 1, 65535])))
         if 0.3 <= k < 0.36:
-            outer.append((39, "http"))
+            # the option form of a forward-proxy request: Proxy-Scheme with Uri-Host (and Uri-Port)
+            outer.append((39, r.choice(["http", "coap", "coaps", "coap+tcp"])))
             outer.append((3, "proxied.example"))
+            if r.random() < 0.4:
+                outer.append((7, r.choice([5683, 8080, 65535])))
+        do_proxy = proxy if proxy is not None else 0.36 <= k < 0.44
         if r.random() < 0.25 and code in (1, 5):
             observe = 0
+        if do_proxy:
+            # the URI form: a Proxy-Uri option instead of all Uri-* options (RFC 7252 section 5.10.2; RFC 8613 section
+            # 4.1.3.3: "When Proxy-Uri is used in the original CoAP message, Uri-* are not present")
+            opts = [x for x in opts if x[0] not in (11, 15)]
+            outer = []
+            proxy_uri = gen_proxy_uri(r, markers)
     else:
         if r.random() < 0.2 and code in (67, 69):
             observe = r.choice([0, 1, 5, 2**24 - 1])
@@ -215,7 +313,7 @@ def gen_message(r, is_request, gi):
         payload = m + rbytes(r, size - len(m))
     else:
         payload = rbytes(r, size)
-    return {"code": code, "opts": opts, "outer": outer, "observe": observe, "payload": payload, "markers": markers}
+    return {"code": code, "opts": opts, "outer": outer, "observe": observe, "payload": payload, "markers": markers, "proxy": proxy_uri}
 
 
 def gen_ids(r, maxlen, gi):
@@ -263,6 +361,10 @@ def judge(ref, recv_recipient_id, recv_id_context, is_request, orig, orig_ct, op
         return "must_fail", "option-removed"
     try:
         o = ref.parse_option(optv, group=group)
+    except ref.NonCanonical as e:
+        # every field may read the same, but this is not the value RFC 8613 sections 5 / 6.1 prescribe for them: the option
+        # (and with it the Partial IV field in it) was changed, and a receiver has no rule by which to accept it
+        return "must_fail", "noncanonical-option-encoding/" + e.kind
     except ref.RefError as e:
         return "must_fail", "malformed-" + "".join(c if c.isalnum() else "-" for c in str(e).lower()).replace("--", "-").strip("-")
     if group and (o.flag ^ orig.flag) & ref.GROUP_FLAG:
@@ -272,8 +374,8 @@ def judge(ref, recv_recipient_id, recv_id_context, is_request, orig, orig_ct, op
         if o.piv != orig.piv:
             return "must_fail", "piv-changed"
     else:
-        # a response's own Partial IV only enters the nonce, left-padded to 5 bytes (section 5.2); the
-        # OSCORE option itself is not authenticated, so leading zeros are neutral for every RFC 8613 receiver
+        # a response's own Partial IV only enters the nonce, left-padded to 5 bytes (section 5.2): compared by value
+        # (an encoding with leading zero bytes never gets here: the parser above has refused it)
         if (o.piv is None) != (orig.piv is None) or (o.piv is not None and int.from_bytes(o.piv, "big") != int.from_bytes(orig.piv, "big")):
             return "must_fail", "piv-changed"
     if o.kid is None:
@@ -343,6 +445,11 @@ def flip(data, bit):
     return data[:i] + bytes([data[i] ^ (0x80 >> b)]) + data[i + 1 :]
 
 
+def rc_piv(ref, optv, group=False):
+    """The Partial IV bytes of a genuine option value."""
+    return ref.parse_option(optv, group=group).piv
+
+
 def option_edits(r, ref, o, recv_recipient_id, recv_sender_id, recv_id_context, request_piv, maxid):
     """Field-level edits of a genuine option `o` (ref.Opt). Yields (name, new option value)."""
     B = ref.build_option
@@ -359,6 +466,8 @@ def option_edits(r, ref, o, recv_recipient_id, recv_sender_id, recv_id_context, 
         if len(piv) < 5:
             yield "piv-leading-zero", B(b"\0" + piv, kc, kid)
             yield "piv-trailing-zero", B(piv + b"\0", kc, kid)
+        for n in range(len(piv) + 2, 6):  # the same number in every longer encoding
+            yield "piv-zero-extended-to-%d" % n, B(piv.rjust(n, b"\0"), kc, kid)
         yield "piv-len-6", B(piv.rjust(6, b"\0"), kc, kid)
         yield "piv-len-7", B(piv.rjust(7, b"\0"), kc, kid)
         if len(piv) > 1:
@@ -393,6 +502,10 @@ def option_edits(r, ref, o, recv_recipient_id, recv_sender_id, recv_id_context, 
         if recv_recipient_id != b"":
             yield "kid-added-empty", B(piv, kc, b"")
         yield "trailing-garbage", B(piv, kc, None) + (b"\xaa" if (piv or kc is not None) else b"")
+        if piv or kc is not None:  # bytes after the last announced field, k clear
+            yield "trailing-zero-byte", B(piv, kc, None) + b"\0"
+            yield "trailing-bytes-like-a-kid", B(piv, kc, None) + (recv_recipient_id or b"\x01")
+            yield "trailing-eight-bytes", B(piv, kc, None) + rbytes(r, 8)
     if kc is not None:
         if kc:
             yield "kidctx-bitflip", B(piv, flip(kc, r.randrange(len(kc) * 8)), kid)
@@ -428,6 +541,9 @@ def option_edits(r, ref, o, recv_recipient_id, recv_sender_id, recv_id_context, 
         yield "option-emptied", b""
     else:
         yield "option-single-zero-byte", b"\0"
+        yield "option-zero-flag-byte-and-one-byte", b"\0" + rbytes(r, 1)
+        yield "option-zero-flag-byte-and-more-bytes", b"\0" + rbytes(r, r.randrange(2, 9))
+        yield "option-zero-bytes-only", b"\0" * r.randrange(2, 7)
         for f in (0x08, 0x10, 0x18, 0x20, 0x40, 0x80, 0x01, 0x05, 0x06, 0x07, 0x1F, 0xFF):
             yield "option-lone-flag-%02x" % f, bytes([f])
 
@@ -470,14 +586,22 @@ class Engine:
         self.Message, self.Direction, self.Code, self.OptionNumber, self.Type = Message, Direction, Code, OptionNumber, Type
 
         class MemCtx(o.CanProtect, o.CanUnprotect, o.SecurityContextUtils):
-            """Plain in-memory context, like tests/test_oscore.py's NonsavingSecurityContext."""
-
-            echo_recovery = None
+            """Plain in-memory context made of the three bases and nothing else, exactly like tests/test_oscore.py's
+            NonsavingSecurityContext and aiocoap.edhoc._EdhocContextBase ("edhoc-style")."""
 
             def post_seqnoincrease(self):
                 pass
 
+        class MemCtxDeclaredNone(MemCtx):
+            """... that declares it takes no part in Appendix B.1.2 recovery, the way _DeterministicUnprotectProtoAspect does."""
+
+            echo_recovery = None
+
+        class MemCtxEcho(MemCtx):
+            """... that holds an Echo value for Appendix B.1.2 recovery, the way FilesystemSecurityContext does (set per instance in ctx())."""
+
         self.MemCtx = MemCtx
+        self.ctx_classes = {"edhoc-style": MemCtx, "declared-none": MemCtxDeclaredNone, "echo-bytes": MemCtxEcho}
         self.algs = []
 
     # -- contexts ---------------------------------------------------------------------------
@@ -504,9 +628,11 @@ class Engine:
             self.algs.append(name)
         self.algs.sort()
 
-    def ctx(self, p, sender_id, recipient_id, seq=0):
+    def ctx(self, p, sender_id, recipient_id, seq=0, kind="declared-none"):
         o = self.o
-        c = self.MemCtx()
+        c = self.ctx_classes[kind]()
+        if kind == "echo-bytes":
+            c.echo_recovery = bytes(8 * [0xEC])
         c.alg_aead = o.algorithms[p.alg]
         c.hashfun = o.hashfunctions[p.hashname]
         c.sender_id = sender_id
@@ -525,6 +651,8 @@ class Engine:
             m.opt.add_option(self.OptionNumber(n).create_option(value=v))
         for n, v in spec["outer"]:
             m.opt.add_option(self.OptionNumber(n).create_option(value=v))
+        if spec.get("proxy") is not None:
+            m.opt.add_option(self.OptionNumber(35).create_option(value=spec["proxy"]["uri"]))
         if spec["observe"] is not None:
             m.opt.observe = spec["observe"]
         m.direction = self.Direction.OUTGOING
@@ -533,6 +661,10 @@ class Engine:
     @staticmethod
     def expected_inner(spec):
         opts = [(n, raw_of(k, v)) for n, v, k in spec["opts"]]
+        if spec.get("proxy") is not None:
+            # RFC 8613 section 4.1.3.3: the Proxy-Uri is decomposed (RFC 7252 section 6.4); its Uri-Path and Uri-Query
+            # are Class E and travel as Inner options, scheme / host / port stay outside
+            opts += [(11, x.encode("utf8")) for x in spec["proxy"]["path"]] + [(15, x.encode("utf8")) for x in spec["proxy"]["query"]]
         if spec["observe"] is not None:
             opts.append((6, uint_raw(spec["observe"])))
         opts.sort(key=lambda x: x[0])
@@ -607,7 +739,28 @@ class Engine:
         for n, _v in spec["outer"]:
             if n not in [x for x, _ in base.options]:
                 rep.count("class_u_option_not_carried_outer/%d" % n)
+        pu = spec.get("proxy")
+        if pu is not None:
+            # what is left of scheme / host / port for the proxy (statistics; the statement only limits what the outer message may carry)
+            od = {}
+            for n, v in base.options:
+                od.setdefault(n, v)
+            authority = pu["host"] + ("" if pu["port"] is None else ":%d" % pu["port"])
+            if od.get(35, b"").decode("utf8", "replace").rstrip("/") == pu["scheme"] + "://" + authority:
+                rep.count("proxy_uri_outer_routing/complete-as-proxy-uri")
+            else:
+                lost = [name for name, here in (("scheme", od.get(39) == pu["scheme"].encode()), ("host", od.get(3) == pu["host"].encode()),
+                                                ("port", pu["port"] is None or od.get(7) == uint_raw(pu["port"]))) if not here]
+                rep.count("proxy_uri_outer_routing/" + ("complete-as-options" if not lost else "-and-".join(lost) + "-lost"))
         return True
+
+    def proxy_refusal(self, pu, exc):
+        """A Proxy-Uri whose scheme is none of the CoAP ones has no decomposition into CoAP options; protect() says so with
+        a ValueError of its own wording. That is a refusal (counted), not a verdict."""
+        if pu is not None and pu["scheme"] in ("http", "https") and isinstance(exc, ValueError) and "Proxy-URI" in str(exc):
+            self.rep.count("proxy_uri_refused/scheme-without-coap-option-form")
+            return True
+        return False
 
     # -- protect + genuine path (monitors a, b, c and the reference decryption) -----------------
     def protect_and_check(self, sc, label, sender, spec, protect_rid, receiver, receiver_rid, case, kid_context=True, mtype=0):
@@ -619,6 +772,9 @@ class Engine:
         except Exception as e:
             rep.count("harness_build_failed/" + type(e).__name__)
             return None
+        pu = spec.get("proxy")
+        if pu is not None:
+            rep.monitor("proxy_uri_request")
         try:
             if is_request:
                 outer, rid_out = sender.protect(msg, kid_context=kid_context)
@@ -626,8 +782,14 @@ class Engine:
                 outer, rid_out = sender.protect(msg, protect_rid)
             wire = self.to_wire(outer, mtype, sc["mid"], sc["token"])
         except Exception as e:
-            rep.violation("roundtrip/protect-raises/" + type(e).__name__, "protect()/encode() raised %s for an ordinary %s" % (type(e).__name__, label), dict(where, spec=repr(spec)[:600], tb=rep.exception_witness(e)), case)
+            if self.proxy_refusal(pu, e):
+                return None
+            rep.violation("roundtrip/protect-raises/" + type(e).__name__ + ("/proxy-uri-request" if pu is not None else ""), "protect()/encode() raised %s for an ordinary %s%s" % (type(e).__name__, label, " that carries a Proxy-Uri option" if pu is not None else ""),
+                          dict(where, spec=repr(spec)[:600], tb=rep.exception_witness(e)), case)
             return None
+        if pu is not None:
+            rep.monitor("proxy_uri_roundtrip")
+            rep.seen("proxy_uri_shapes", "%s/%s/port-%s/%d-segments/%d-query-items" % (pu["scheme"], pu["host_kind"], "none" if pu["port"] is None else "given", len(pu["path"]), len(pu["query"])))
         base = rc.parse(wire)
         expected = self.expected_inner(spec)
         optset = tuple(sorted({n for n, _v in expected[1]}))
@@ -714,6 +876,8 @@ class Engine:
         if outcome == "skipped":
             return
         rep.monitor(family)
+        if reason.startswith("noncanonical-option-encoding/"):
+            rep.monitor("tamper_noncanonical_" + ("request" if t["is_request"] else "response"))
         rep.case((t["sig"], manip, field, verdict, outcome), nontrivial=True)
         rk = reason
 
@@ -899,6 +1063,123 @@ class Engine:
                     elif outcome != "rejected":
                         rep.violation("binding/escape-%s/%s" % (type(detail).__name__, escape_mechanism(self.ref, detail, rc.opt1(base, 9))), "cross-paired verification raised %s" % type(detail).__name__, dict(w, tb=rep.exception_witness(detail) if isinstance(detail, BaseException) else None), case)
 
+    # -- deliveries to a receiver that remembers (no re-initialised replay window in between) -------------------
+    def deliver(self, ctx, m, rid):
+        """One unprotect() of the decoded message m, receiver state left as the deliveries before left it."""
+        o = self.o
+        if m is None:
+            return "skipped", None, None
+        try:
+            inner, rid_out = ctx.unprotect(m, self.copy.copy(rid) if rid is not None else None)
+        except o.ProtectionInvalid as e:  # ReplayError, ReplayErrorWithEcho and DecodeError are protection errors
+            return "rejected", e, None
+        except o.NotAProtectedMessage as e:
+            return "not-protected", e, None
+        except Exception as e:
+            return "escape", e, None
+        return "accepted", self.fields(inner), rid_out
+
+    def replay_escape_mechanism(self, exc, ctx, ctxname):
+        if isinstance(exc, AttributeError) and "echo_recovery" in str(exc):
+            return "echo_recovery-undefined-on-" + ctxname
+        tb = exc.__traceback__
+        fn = "unknown"
+        while tb is not None:
+            co = tb.tb_frame.f_code
+            if "aiocoap" in co.co_filename:
+                fn = co.co_name
+            tb = tb.tb_next
+        return "in-%s/%s" % (fn, ctxname)
+
+    def judge_delivery(self, prefix, monitor, step, demand, outcome, detail, want, ctx, ctxname, sig, where, case, **wit):
+        """demand: "original" (a genuine message the receiver has no reason to refuse: clause 1), "fail" (its Partial IV
+        was changed: clause 4), "either" (a genuine message delivered once more: the statement of C11 leaves open whether it
+        is refused - that is C12 - but what comes out is the original or a protection error, nothing else)."""
+        rep = self.rep
+        if outcome == "skipped":
+            return
+        rep.monitor(monitor)
+        rep.case((sig, "delivery", step, demand, outcome), nontrivial=True)
+        w = dict(where, delivery=step, demanded={"original": "the original message", "fail": "a protection error", "either": "the original message or a protection error"}[demand], receiving_context=type(ctx).__name__, **wit)
+        if outcome == "escape":
+            rep.violation("%sreplay/escape-%s/%s" % (prefix, type(detail).__name__, self.replay_escape_mechanism(detail, ctx, ctxname)), "%s: unprotect() let %s escape instead of a protection error" % (step, type(detail).__name__), dict(w, exc=repr(detail), tb=rep.exception_witness(detail)), case)
+        elif outcome == "not-protected":
+            rep.violation("%sreplay/not-a-protected-message-with-option-present/%s" % (prefix, step), "NotAProtectedMessage although an OSCORE option is present", w, case)
+        elif outcome == "rejected":
+            rep.count("%sdelivery/%s/rejected-%s" % (prefix, step, type(detail).__name__ if isinstance(detail, BaseException) else detail))
+            if demand == "original":
+                rep.violation("%sreplay/fresh-genuine-message-rejected/%s" % (prefix, step), "%s: a genuine message with a Partial IV the receiver has not seen is refused: %r" % (step, detail), w, case)
+        else:
+            rep.count("%sdelivery/%s/accepted" % (prefix, step))
+            same = detail == want
+            if demand == "fail":
+                rep.violation("%sreplay/accepted-%s/%s" % (prefix, "original" if same else "DIFFERENT-MESSAGE", step), "%s: unprotect() yielded a message" % step, dict(w, got=repr(detail)[:400]), case)
+            elif not same:
+                rep.violation("%sreplay/different-message/%s" % (prefix, step), "%s: unprotect() yielded something else than the original" % step, dict(w, got=repr(detail)[:400], want=repr(want)[:400]), case)
+
+    def small_request(self, r, tag):
+        return {"code": r.choice([1, 2, 5]), "opts": [(11, marker(r, tag), STRING)], "outer": [], "observe": None, "payload": rbytes(r, r.choice([0, 3])), "markers": [], "proxy": None}
+
+    def rewrite_piv(self, optv, piv, group=False):
+        po = self.ref.parse_option(optv, group=group)
+        return self.ref.build_option(piv, po.kid_context, po.kid, flag_or=po.flag & self.ref.GROUP_FLAG)
+
+    def redelivery(self, sc, r, case):
+        """Requests A (sequence number s), B (s + 1), C (s + 40, beyond the 32 wide window) of one client and responses to A,
+        delivered to a server / client pair that keeps its state: every message once more, B with A's Partial IV written over
+        its own, and - where the kind of context can be in that state - A at a receiver whose window is not initialised."""
+        rep, rc = self.rep, self.rc
+        p, kind = sc["params"], sc["ctxkind"]
+        s0 = min(sc["seq_c"], 2**40 - 50)
+        client = self.ctx(p, sc["cid"], sc["sid"], s0, kind)
+        server = self.ctx(p, sc["sid"], sc["cid"], r.choice(SEQS[:-1]), kind)
+        where = dict(self.describe(sc, "requests with sequence numbers s, s+1, s+40 delivered in turn, replay window kept"), context_kind=kind, s=s0)
+        sig = ("redelivery", p.alg, kind, len(sc["cid"]), len(sc["sid"]), sc["idctx_class"], len(uint_raw(s0)))
+        ctxname = {"edhoc-style": "EdhocStyleContext", "declared-none": "ContextDeclaringNone", "echo-bytes": "ContextWithEchoValue"}[kind]
+        msgs = {}
+        try:
+            for name, seq in (("A", s0), ("B", s0 + 1), ("C", s0 + 40)):
+                client.sender_sequence_number = seq
+                spec = self.small_request(r, name)
+                outer, rid_c = client.protect(self.build(spec), kid_context=sc["send_kc"])
+                base = rc.parse(self.to_wire(outer, 0, sc["mid"], sc["token"]))
+                msgs[name] = {"base": base, "optv": rc.opt1(base, 9), "ct": base.payload, "rid_c": rid_c, "want": self.expected_inner(spec)}
+        except Exception as e:
+            rep.count("redelivery_setup_failed/" + type(e).__name__)
+            return
+        A, B, C = msgs["A"], msgs["B"], msgs["C"]
+        J = lambda step, demand, res, want, ctx=server, **wit: self.judge_delivery("", "redelivery" if demand != "original" else "redelivery_control", step, demand, res[0], res[1], want, ctx, ctxname, sig, where, case, **wit)
+        W = lambda x, optv=None: self.g_wire(x["base"], x["optv"] if optv is None else optv, x["ct"])
+        first = self.deliver(server, W(A), None)
+        J("first-delivery", "original", first, A["want"], option=A["optv"].hex())
+        if first[0] != "accepted":
+            return
+        J("second-delivery-of-a-request", "either", self.deliver(server, W(A), None), A["want"], option=A["optv"].hex())
+        J("partial-iv-rewritten-to-a-used-value", "fail", self.deliver(server, W(B, self.rewrite_piv(B["optv"], rc_piv(self.ref, A["optv"]))), None), B["want"], option=self.rewrite_piv(B["optv"], rc_piv(self.ref, A["optv"])).hex(), genuine_option=B["optv"].hex(), used_option=A["optv"].hex())
+        J("fresh-request-after-refused-ones", "original", self.deliver(server, W(B), None), B["want"], option=B["optv"].hex())
+        J("second-delivery-of-a-request", "either", self.deliver(server, W(B), None), B["want"], option=B["optv"].hex())
+        J("fresh-request-beyond-the-window", "original", self.deliver(server, W(C), None), C["want"], option=C["optv"].hex())
+        J("delivery-of-a-request-older-than-the-window", "either", self.deliver(server, W(A), None), A["want"], option=A["optv"].hex())
+        J("partial-iv-rewritten-to-a-value-older-than-the-window", "fail", self.deliver(server, W(C, self.rewrite_piv(C["optv"], rc_piv(self.ref, A["optv"]))), None), C["want"], option=self.rewrite_piv(C["optv"], rc_piv(self.ref, A["optv"])).hex(), genuine_option=C["optv"].hex())
+        # responses to A, each delivered twice to the client (a notification may legitimately arrive again; there is no window for responses)
+        for label in ("response-reuse", "response-ownpiv"):
+            spec = {"code": 69, "opts": [(12, 0, UINT)], "outer": [], "observe": None, "payload": marker(r, "R").encode(), "markers": [], "proxy": None}
+            try:
+                outer, _ = server.protect(self.build(spec), first[2])
+                base = rc.parse(self.to_wire(outer, 2, sc["mid"], sc["token"]))
+            except Exception as e:
+                rep.count("redelivery_response_setup_failed/" + type(e).__name__)
+                continue
+            x = {"base": base, "optv": rc.opt1(base, 9), "ct": base.payload}
+            J("first-delivery-of-a-" + label, "original", self.deliver(client, W(x), A["rid_c"]), self.expected_inner(spec), ctx=client, option=x["optv"].hex())
+            J("second-delivery-of-a-" + label, "either", self.deliver(client, W(x), A["rid_c"]), self.expected_inner(spec), ctx=client, option=x["optv"].hex())
+        # a receiver that has lost its replay window (Appendix B.1): contexts made for that state only
+        if kind != "edhoc-style":
+            lost = self.ctx(p, sc["sid"], sc["cid"], 0, kind)
+            lost.recipient_replay_window = self.o.ReplayWindow(32, lambda: None)
+            J("request-at-a-receiver-without-replay-window", "either", self.deliver(lost, W(A), None), A["want"], ctx=lost, option=A["optv"].hex())
+            J("request-at-a-receiver-without-replay-window", "either", self.deliver(lost, W(B), None), B["want"], ctx=lost, option=B["optv"].hex())
+
     # -- one scenario ---------------------------------------------------------------------------------
     def scenario(self, seed, gi, case):
         rep, ref = self.rep, self.ref
@@ -916,11 +1197,18 @@ class Engine:
         sc = {
             "params": p, "cid": cid, "sid": sid, "seq_c": seq_c, "mid": r.randrange(65536), "token": rbytes(r, r.randrange(0, 9)),
             "idctx_class": "none" if idctx is None else len(idctx), "send_kc": True if (idctx is None or r.random() < 0.7) else False,
+            # which of the library's kinds of two-party context the pair is modelled on (they differ in what they say about Appendix B.1.2)
+            "ctxkind": CTX_KINDS[(gi + gi // 16) % len(CTX_KINDS)],
         }
+        rx = random.Random("c11x/%d/%d" % (seed, gi))  # the dimensions added later draw from their own stream
         rep.seen("alg_x_idlens", "%s/%d/%d" % (alg, len(cid), len(sid)))
         rep.seen("alg_x_seq_x_idctx", "%s/%d/%s" % (alg, seq_c if seq_c in SEQS else -1, sc["idctx_class"]))
-        client = self.ctx(p, cid, sid, seq_c)
-        server = self.ctx(p, sid, cid, seq_s)
+        rep.seen("alg_x_ctxkind", "%s/%s" % (alg, sc["ctxkind"]))
+        client = self.ctx(p, cid, sid, seq_c, sc["ctxkind"])
+        server = self.ctx(p, sid, cid, seq_s, sc["ctxkind"])
+        # a forward-proxy request in URI form and the stateful deliveries first: they stand on their own (own contexts)
+        self.protect_and_check(sc, "request", self.ctx(p, cid, sid, rx.choice(SEQS), sc["ctxkind"]), gen_message(rx, True, gi, proxy=True), None, self.ctx(p, sid, cid, 0, sc["ctxkind"]), None, case, kid_context=sc["send_kc"], mtype=rx.choice([0, 1]))
+        self.redelivery(sc, rx, case)
         req_spec = gen_message(r, True, gi)
         t1 = self.protect_and_check(sc, "request", client, req_spec, None, server, None, case, kid_context=sc["send_kc"], mtype=r.choice([0, 1]))
         if gi < 3 * 16:
@@ -1142,6 +1430,9 @@ class Engine:
         except Exception as e:
             rep.count("harness_build_failed/" + type(e).__name__)
             return None
+        pu = spec.get("proxy")
+        if pu is not None:
+            rep.monitor("group_proxy_uri_request")
         try:
             if is_request:
                 outer, rid_out = sender_ctx.protect(msg)
@@ -1149,8 +1440,13 @@ class Engine:
                 outer, rid_out = sender_ctx.protect(msg, protect_rid)
             wire = self.to_wire(outer, mtype, sc["mid"], sc["token"])
         except Exception as e:
-            rep.violation("group/roundtrip/protect-raises/" + type(e).__name__, "protect()/encode() raised %s for an ordinary %s in %s mode" % (type(e).__name__, label, mode), dict(where, spec=repr(spec)[:600], tb=rep.exception_witness(e)), case)
+            if self.proxy_refusal(pu, e):
+                return None
+            rep.violation("group/roundtrip/protect-raises/" + type(e).__name__ + ("/proxy-uri-request" if pu is not None else ""), "protect()/encode() raised %s for an ordinary %s in %s mode%s" % (type(e).__name__, label, mode, " that carries a Proxy-Uri option" if pu is not None else ""),
+                          dict(where, spec=repr(spec)[:600], tb=rep.exception_witness(e)), case)
             return None
+        if pu is not None:
+            rep.monitor("group_proxy_uri_roundtrip")
         base = rc.parse(wire)
         expected = self.expected_inner(spec)
         optset = tuple(sorted({n for n, _v in expected[1]}))
@@ -1264,6 +1560,8 @@ class Engine:
         for how in hows:
             outcome, detail, ctx, _rid = self.g_run(t, m, how)
             rep.monitor(family)
+            if reason.startswith("noncanonical-option-encoding/"):
+                rep.monitor("group_tamper_noncanonical")
             rep.case((t["sig"], manip, field, verdict, outcome, how), nontrivial=True)
 
             def wit(**kw):
@@ -1629,6 +1927,113 @@ class Engine:
                 elif outcome != "rejected":
                     rep.violation("group/binding/escape-%s/deterministic" % type(detail).__name__, "cross-paired verification raised %s" % type(detail).__name__, dict(w, tb=rep.exception_witness(detail) if isinstance(detail, BaseException) else None), case)
 
+    # -- deliveries to a group member that remembers ----------------------------------------------------------------------
+    def g_deliver(self, m, how, is_request, recv_group, reqctx, direct_ctx, rid):
+        """Like g_run, but the receiver's replay windows stay as the deliveries before left them. -> (outcome, detail, ctx, request id)"""
+        o = self.o
+        if m is None:
+            return "skipped", None, None, None
+        ctx = direct_ctx
+        try:
+            if how == "dispatch":
+                bag = o.verify_start(m)
+                if is_request:
+                    ctx = recv_group.get_oscore_context_for(bag)
+                    if ctx is None:
+                        return "rejected", "no-context", None, None
+                else:
+                    ctx = reqctx.context_from_response(bag)
+            inner, rid_out = ctx.unprotect(m, self.copy.copy(rid) if rid is not None else None)
+        except o.ProtectionInvalid as e:
+            return "rejected", e, ctx, None
+        except o.NotAProtectedMessage as e:
+            return "not-protected", e, ctx, None
+        except Exception as e:
+            return "escape", e, ctx, None
+        return "accepted", self.fields(inner), ctx, rid_out
+
+    def g_redelivery(self, sc, Gc, Gs, reqctx, r, case):
+        """The group counterpart of redelivery(): requests A, B, C of one member (for the deterministic client: two different
+        requests, which all carry Partial IV 0) to a member whose replay windows are left alone, through both ways of context
+        selection; responses in the exchange's response mode delivered twice to the requester."""
+        rep, rc, ref = self.rep, self.rc, self.ref
+        mode, resp_mode = sc["flow"]
+        det = sc.get("det")
+        s0 = min(sc["seq_c"], 2**40 - 50)
+        where = dict(self.g_describe(sc, "%s mode requests with sequence numbers s, s+1, s+40 delivered in turn, replay windows kept" % mode), s=s0)
+        sig = ("group-redelivery", sc["kind"], mode, resp_mode, sc["gp"].alg_aead, sc["gp"].alg_group_enc, len(uint_raw(s0)))
+        for w in Gs.recipient_replay_windows.values():
+            w.initialize_empty()
+        msgs = {}
+        try:
+            for name, seq in (("A", s0), ("B", s0 + 1), ("C", s0 + 40)):
+                Gc.sender_sequence_number = seq
+                spec = self.small_request(r, name)
+                if det is not None:
+                    spec["code"] = r.choice([1, 5])
+                outer, rid_c = reqctx.protect(self.build(spec))
+                base = rc.parse(self.to_wire(outer, 0, sc["mid"], sc["token"]))
+                msgs[name] = {"base": base, "optv": rc.opt1(base, 9), "ct": base.payload, "rid_c": rid_c, "want": self.expected_inner(spec)}
+        except Exception as e:
+            rep.count("group_redelivery_setup_failed/" + type(e).__name__)
+            return
+        A, B, C = msgs["A"], msgs["B"], msgs["C"]
+        W = lambda x, optv=None: self.g_wire(x["base"], x["optv"] if optv is None else optv, x["ct"])
+
+        def J(step, demand, res, want, **wit):
+            ctx = res[2]
+            self.judge_delivery("group/", "group_redelivery" if demand != "original" else "group_redelivery_control", step, demand, res[0], res[1], want, ctx,
+                                type(ctx).__name__.strip("_") if ctx is not None else "no-context", sig, where, case, **wit)
+
+        first = self.g_deliver(W(A), "dispatch", True, Gs, None, None, None)
+        J("first-delivery", "original", first, A["want"], option=A["optv"].hex())
+        if first[0] != "accepted":
+            return
+        asp = first[2]
+        D = lambda m, how: self.g_deliver(m, how, True, Gs, None, asp, None)
+        for how in ("dispatch", "direct"):
+            J("second-delivery-of-a-request", "either", D(W(A), how), A["want"], option=A["optv"].hex(), unprotected_through=how)
+        if det is None:
+            rew = self.rewrite_piv(B["optv"], rc_piv(ref, A["optv"], True), group=True)
+            for how in ("dispatch", "direct"):
+                J("partial-iv-rewritten-to-a-used-value", "fail", D(W(B, rew), how), B["want"], option=rew.hex(), genuine_option=B["optv"].hex(), used_option=A["optv"].hex(), unprotected_through=how)
+        J("fresh-request-after-refused-ones", "original", D(W(B), "dispatch"), B["want"], option=B["optv"].hex())
+        J("second-delivery-of-a-request", "either", D(W(B), "direct"), B["want"], option=B["optv"].hex(), unprotected_through="direct")
+        if det is None:
+            J("fresh-request-beyond-the-window", "original", D(W(C), "direct"), C["want"], option=C["optv"].hex())
+            for how in ("dispatch", "direct"):
+                J("delivery-of-a-request-older-than-the-window", "either", D(W(A), how), A["want"], option=A["optv"].hex(), unprotected_through=how)
+            rew = self.rewrite_piv(C["optv"], rc_piv(ref, A["optv"], True), group=True)
+            J("partial-iv-rewritten-to-a-value-older-than-the-window", "fail", D(W(C, rew), "dispatch"), C["want"], option=rew.hex(), genuine_option=C["optv"].hex())
+        # responses to A in the exchange's response mode, each delivered twice to the requester
+        try:
+            if det is not None or resp_mode == "group":
+                resp_ctx = Gs
+            else:
+                resp_ctx = asp.context_for_response()
+                if type(resp_ctx).__name__ != "_PairwiseContextAspect":
+                    resp_ctx = Gs.pairwise_for(sc["members"][sc["ci"]]["id"])
+        except Exception as e:
+            rep.count("group_redelivery_response_setup_failed/" + type(e).__name__)
+            return
+        rid_s = self.copy.copy(first[3])
+        for label in ("response-reuse", "response-ownpiv") if det is None else ("response-ownpiv",):
+            spec = {"code": 69, "opts": [(12, 0, UINT)], "outer": [], "observe": None, "payload": marker(r, "R").encode(), "markers": [], "proxy": None}
+            try:
+                Gs.sender_sequence_number = min(Gs.sender_sequence_number, 2**40 - 50)
+                outer, _ = resp_ctx.protect(self.build(spec), rid_s)
+                base = rc.parse(self.to_wire(outer, 2, sc["mid"], sc["token"]))
+            except Exception as e:
+                rep.count("group_redelivery_response_setup_failed/" + type(e).__name__)
+                continue
+            x = {"base": base, "optv": rc.opt1(base, 9), "ct": base.payload}
+            res = self.g_deliver(W(x), "dispatch", False, Gc, reqctx, None, A["rid_c"])
+            J("first-delivery-of-a-" + label, "original", res, self.expected_inner(spec), option=x["optv"].hex())
+            if res[0] != "accepted":
+                continue
+            for how in ("dispatch", "direct"):
+                J("second-delivery-of-a-" + label, "either", self.g_deliver(W(x), how, False, Gc, reqctx, res[2], A["rid_c"]), self.expected_inner(spec), option=x["optv"].hex(), unprotected_through=how)
+
     # -- one group scenario ------------------------------------------------------------------------------------------
     def g_ids(self, r, maxid, n):
         ids = set()
@@ -1719,6 +2124,14 @@ class Engine:
         except Exception as e:
             rep.violation("group/setup/pairwise_for-raises/" + type(e).__name__, "pairwise_for() / for_sending_deterministic_requests() raised for a member of the group", dict(self.g_describe(sc, "setup"), tb=rep.exception_witness(e)), case)
             return
+        # a forward-proxy request in URI form and the stateful deliveries first (sequence numbers are set again afterwards)
+        rx = random.Random("c11gx/%d/%d" % (seed, gi))
+        px_spec = gen_message(rx, True, gi, proxy=True)
+        if flow[0] == "deterministic":
+            px_spec["code"] = rx.choice([1, 5])
+        self.g_protect_and_check(sc, "request", flow[0], reqctx, det if det is not None else ci, si, px_spec, None, None, None, Gs, case, mtype=rx.choice([0, 1]))
+        self.g_redelivery(sc, Gc, Gs, reqctx, rx, case)
+        Gc.sender_sequence_number, Gs.sender_sequence_number = seq_c, seq_s
         req_spec = gen_message(r, True, gi)
         if flow[0] == "deterministic":
             req_spec["code"] = r.choice([1, 5])  # deterministic requests are defined for safe methods only (unprotect refuses others by design)
@@ -1808,6 +2221,34 @@ class Engine:
                 continue
             t = {"label": "request", "is_request": True, "wire": wire, "base": base, "opt": ref.parse_option(optv), "optv": optv, "ct": ct, "receiver": server, "receiver_rid": None,
                  "genuine": genuine, "sig": ("fixed", name), "where": self.describe(sc, "request (%s, genuine datagram %s)" % (name, wire.hex())), "request_piv": None}
+            for mname, ov in manips:
+                self.settle(t, "fixed_witnesses", mname, "option", ov, ct, case)
+        # the RFC's responses to the C.4 request (C.7 without, C.8 with an own Partial IV) at the client, and re-encodings of their option
+        p = sets[0][1]
+        sc = {"params": p, "cid": b"", "sid": b"\x01", "seq_c": 20, "mid": 0x5D1F, "token": h("00003974"), "idctx_class": "none", "send_kc": True}
+        client = self.ctx(p, b"", b"\x01", 20)
+        try:
+            _outer, rid_c = client.protect(self.build({"code": 1, "opts": [(11, "tv1", STRING)], "outer": [(3, "localhost")], "observe": None, "payload": b"", "markers": []}))
+        except Exception as e:
+            rep.inconc("the C.4 request cannot be protected (%r): fixed response witnesses not evaluated" % (e,))
+            rid_c = None
+        for name, wire, manips in [
+            ("rfc8613-C.7", h("64445d1f0000397490ffdbaad1e9a7e7b2a813d3c31524378303cdafae119106"),
+             [("option-single-zero-byte", h("00")), ("option-zero-flag-byte-and-more-bytes", h("00aabb"))]),
+            ("rfc8613-C.8", h("64445d1f00003974920100ff4d4c13669384b67354b2b6175ff4b8658c666a6cf88e"),
+             [("piv-leading-zero", h("020000")), ("piv-zero-extended-to-5", h("050000000000")), ("trailing-garbage", h("0100aa")), ("kid-added-expected", h("090001"))]),
+        ]:
+            if rid_c is None:
+                break
+            base = rc.parse(wire)
+            optv, ct = rc.opt1(base, 9), base.payload
+            outcome, genuine = self.attempt(client, base, optv, ct, rid_c)
+            rep.monitor("fixed_witnesses")
+            if outcome != "accepted" or genuine != (0x45, [], b"Hello World!"):
+                rep.inconc("the genuine %s response does not unprotect to 2.05 'Hello World!' (%s %r): fixed witnesses not evaluated" % (name, outcome, genuine))
+                continue
+            t = {"label": "response", "is_request": False, "wire": wire, "base": base, "opt": ref.parse_option(optv), "optv": optv, "ct": ct, "receiver": client, "receiver_rid": rid_c,
+                 "genuine": genuine, "sig": ("fixed", name), "where": self.describe(sc, "response (%s, genuine datagram %s)" % (name, wire.hex())), "request_piv": b"\x14"}
             for mname, ov in manips:
                 self.settle(t, "fixed_witnesses", mname, "option", ov, ct, case)
         # Observe=1 (deregistration) request through protect/unprotect
